@@ -72,3 +72,16 @@ PROPS["C11"] = {
         {"bin": "c11", "quick": {"cases": 5000, "workers": 16, "budget": 150}, "thorough": {"cases": 40000, "workers": 16, "budget": 1200}},
     ],
 }
+
+PROPS["C10"] = {
+    "level": "exploration",
+    "engine": "enumeration",
+    "technique": "exhaustive enumeration of the finite grid with a differential oracle (sf_format_check vs. sf_open + write + re-open)",
+    "exhaustive": True,
+    "rule": "complete enumeration: majors x subtypes (from SFC_GET_FORMAT_MAJOR/SUBTYPE at run time) x endian {FILE,LITTLE,BIG,CPU} x channels {0,1,2,3,8,9,256,257,1024,1025} x samplerate {-1,0,1,8000,44100,2^31-1}, plus all indices -2..count+2 of the three list commands and SFC_GET_FORMAT_INFO on every returned word; "
+            "every grid point is non-trivial (sf_format_check and sf_open are both evaluated; TRUE points additionally write 4 frames through each of the 4 types, close and re-open); distinct = (format word, channels, rate); thorough adds channels 1..1025 at 44100 Hz for every major x subtype",
+    "assumptions": BASE_ASSUME + ["SD2 is opened by path, everything else through virtual I/O", "4 frames (not 3) are written per type so that RAW/VOX's odd-count defect (listed under C04/C05) does not mask this property"],
+    "stages": [
+        {"bin": "c10", "quick": {"cases": 0, "workers": 16, "budget": 600}, "thorough": {"cases": 0, "workers": 16, "budget": 1800}},
+    ],
+}
